@@ -47,6 +47,7 @@ ExtrasQuick == {
   << H(N_x, <<118>>) >>,
   << H(N_x, <<97, NL, 98, NL>>) >>,
   << H(N_x, <<97, NL, NL, 98, NL>>) >>,                                 \* empty continuation line inside
+  << H(N_x, <<97, 13, NL, 98, 13, NL>>) >>,                             \* lines that end with CR LF (armor written on Windows): CR is content
   << H(N_gpgsig, SigBlock \o <<NL>>), H(N_x, <<118>>) >>,
   << H(N_gpgsig, SigBlock \o <<NL>>), H(N_gpgsig, SigBlock \o <<NL>>) >> }   \* two signature headers
 ExtrasWide == ExtrasQuick \cup {
